@@ -557,7 +557,9 @@ def run(ctx):
     from .C07 import r7_busy_formula
     r7_busy_formula(ctx, rule='C16.R8')
     from .C07 import r3_byte_accounting
-    r3_byte_accounting(ctx, rule='C16.R8')   # ... and queues are charged and un-charged with that very length
+    r3_byte_accounting(ctx, rule='C16.R8')
+    from .C07 import r2_admission
+    r2_admission(ctx, rule='C16.R8')   # ... and admitted to a bounded queue by it: accepted iff queued bytes + length <= limit   # ... and queues are charged and un-charged with that very length
     r7_set_content_and_clone(ctx)
     r1_guarded_reinterpretation(ctx)
     r2_vtables(ctx)
